@@ -106,8 +106,9 @@ class Application:
         return answer_msg
 
     def receive_answer(self, message: Message):
-        if message.header.hop_by_hop_identifier in self._answer_waiting:
-            waiting = self._answer_waiting[message.header.hop_by_hop_identifier]
+        waiting = self._answer_waiting.get(
+            message.header.hop_by_hop_identifier)
+        if waiting is not None:
             waiting.answer = message
             waiting.event.set()
         else:
